@@ -26,6 +26,7 @@ MISSES = {
     'C28b': 'retained finished group-start members with dependants were rarely triggered together -> trigger target "@finished-group" (a pooled finished task plus instances depending on it), resolved when issued',
     'C43b': 'stop tasks always finished complete -> stop-task cases with custom required outputs and jobs that succeed without them',
     'C46b': 'cycle points were single-digit -> runs with 10-12 cycles and start tasks on both sides of the one/two-digit boundary',
+    'C13b': 'absolute trigger points were always written in the canonical spelling of the workflow -> the same instants written truncated (T06), in extended format and in another time zone',
     'C01b': 'needs absolute triggers, which the C01 workload does not generate (its closure model is not validated for them) -> caught by C45; C01 unchanged',
 }
 
